@@ -497,7 +497,10 @@ def _oracle_step(shape, op, ans, before, after):
         cells = diff_cells()
         if ans == 'ok':
             want = dict((c, dict(rows)) for c, rows in before.items())
+            md = most_derived(shape, before, root_of(shape, e), i)
             for a, k, v in kvs:
+                if md is None or a not in anc(shape, md):
+                    continue  # not a column of that instance: plain Python attribute, no row involved
                 if i in want[a]:
                     child, vals = want[a][i]
                     vals = list(vals)
@@ -842,6 +845,8 @@ def sweep_cases(shape):
         chain = anc(shape, c)
         attrs = [(a, k) for a in reversed(chain) for k in range(shape[a][1])]
         for e in range(n):
+            if root_of(shape, e) != root_of(shape, c):
+                continue  # another hierarchy: ids are per hierarchy, names of c's columns mean nothing there
             ops = []
             # population: one instance of every class, the class under test twice (ids 1..n+1 per root)
             order = [x for x in range(n) if x != c] + [c, c]
